@@ -210,9 +210,39 @@ def _alias(name):
 _N = [0]
 
 
+def _noop_validator(inst, attrib, value):
+    return None
+
+
+def _custom_hook(inst, attrib, value):
+    return value
+
+
+S = attr.setters
+# name -> (level, hook value or None for "leave it to the front-end's default", runs setters.convert?)
+HOOKCFGS = {
+    "cls_convert": ("cls", lambda: S.convert, True),
+    "cls_validate": ("cls", lambda: S.validate, False),
+    "cls_list": ("cls", lambda: [S.convert, S.validate], True),
+    "cls_list_rev": ("cls", lambda: [S.validate, S.convert], True),
+    "cls_pipe": ("cls", lambda: S.pipe(S.convert, S.validate), True),
+    "cls_default": ("cls", None, True),            # define/mutable: nothing passed; attr.s/make_class: the same list
+    "cls_custom": ("cls", lambda: _custom_hook, False),
+    "cls_custom_convert": ("cls", lambda: [_custom_hook, S.convert], True),
+    "field_convert": ("field", lambda: S.convert, True),
+    "field_list": ("field", lambda: [S.convert, S.validate], True),
+    "cls_validate_field_convert": ("both", lambda: S.convert, True),
+}
+
+
+def converts(hookcfg):
+    return HOOKCFGS[hookcfg][2]
+
+
 def make_class(case, make_conv, default=attr.NOTHING):
     """class with the case's fields: every `shared` field gets THE SAME converter object (unless cfg.share ==
-    'rebuilt': then an equal one built separately), the others a plain converter fy"""
+    'rebuilt': then an equal one built separately), `own` fields a plain converter fy, `validator` fields a
+    validator only, `plain` fields nothing; in the assign/setter modes the on_setattr configuration is cfg.hookcfg"""
     cfg = case.get("cfg", {})
     api = cfg.get("api", "attr.s")
     mode = case["mode"]
@@ -221,21 +251,27 @@ def make_class(case, make_conv, default=attr.NOTHING):
         kw["slots"] = cfg["slots"]
     if cfg.get("frozen") and mode in ("init", "initDefault"):
         kw["frozen"] = True
-    hooks = None
+    field_hook = None
     if mode in ("assign", "setter"):
-        hook = cfg.get("hook", "cls")
-        hooks = attr.setters.convert if not cfg.get("hook_pipe") else [attr.setters.convert, attr.setters.validate]
-        if api == "attr.s" and hook == "cls":
-            kw["on_setattr"] = hooks
-            hooks = None
-        elif api != "attr.s" and hook != "field":
-            hooks = None       # define: default on_setattr is [convert, validate]
+        level, mkhook, _ = HOOKCFGS[cfg.get("hookcfg", "cls_convert")]
+        if level == "cls":
+            if mkhook is None:
+                if api not in ("define", "mutable"):
+                    kw["on_setattr"] = [S.convert, S.validate]
+            else:
+                kw["on_setattr"] = mkhook()
+        elif level == "field":
+            field_hook = mkhook
+        else:
+            kw["on_setattr"] = S.validate
+            field_hook = mkhook
     mk = attr.ib if api in ("attr.s", "make_class") else attrs.field
     body = {}
     the_conv = make_conv()
     seen_default = False
     for f in case["flds"]:
-        if f["shared"]:
+        kind = f["kind"]
+        if kind == "shared":
             fkw = {"converter": the_conv if cfg.get("share", "object") == "object" else make_conv()}
             if default is not attr.NOTHING:
                 fkw["default"] = default
@@ -244,12 +280,16 @@ def make_class(case, make_conv, default=attr.NOTHING):
                     fkw["init"] = False      # the default is converted by __init__ all the same, per instance
             if cfg.get("kw_only"):
                 fkw["kw_only"] = True
-            if hooks is not None:
-                fkw["on_setattr"] = hooks
         else:
-            fkw = {"converter": make_fn("fy", "term")}
+            fkw = {}
+            if kind == "own":
+                fkw["converter"] = make_fn("fy", "term")
+            elif kind == "validator":
+                fkw["validator"] = _noop_validator
             if cfg.get("kw_only") or seen_default:
                 fkw["kw_only"] = True   # a mandatory field may follow a defaulted one only as keyword-only
+        if field_hook is not None and kind in ("shared", "own"):
+            fkw["on_setattr"] = field_hook()
         body[f["name"]] = mk(**fkw)
     _N[0] += 1
     name = f"C{_N[0] % 7}"
@@ -311,7 +351,7 @@ def observe(case):
                 return build(tree, cfg)
 
             flds = case["flds"]
-            shared = [f["name"] for f in flds if f["shared"]]
+            every = [f["name"] for f in flds]
             if mode == "initDefault" and cfg.get("dflt_style", "value") == "value":
                 # one class per distinct default; a default that comes again is another instance of the SAME
                 # class: every instance must be converted on its own (calls, fresh factory results)
@@ -338,7 +378,7 @@ def observe(case):
                     o = cls.__new__(cls)
                     for val in case["inputs"]:
                         v = decode(val)
-                        for fname in shared:
+                        for fname in every:      # the value is assigned to EACH field of the class
                             n0 = len(CUR["insts"])
                             if mode == "assign":
                                 def thunk():
@@ -368,7 +408,7 @@ def _run_init(cls, flds, v, use_default):
     n0 = len(CUR["insts"])
     kw = {}
     for f in flds:
-        if f["shared"]:
+        if f["kind"] == "shared":
             if not use_default:
                 kw[_alias(f["name"])] = v
         else:
@@ -377,7 +417,7 @@ def _run_init(cls, flds, v, use_default):
         o = cls(**kw)
     except BaseException as e:  # noqa: BLE001
         return [_exc_text(e)]
-    out = [_outcome(lambda n=f["name"]: getattr(o, n)) for f in flds if f["shared"]]
+    out = [_outcome(lambda n=f["name"]: getattr(o, n)) for f in flds if f["kind"] == "shared"]
     if any(i is not o for i in CUR["insts"][n0:]):
         LOG.append("!wrong-instance")
     return out
@@ -389,17 +429,18 @@ FN_NAMES = ["f1", "f2", "f3", "f4"]
 FAC_NAMES = ["g1", "g2"]
 MODES = ["standalone", "init", "initDefault", "assign", "setter"]
 FNAMES = ["x", "_p", "val", "converter_x", "z", "b2"]
-BGNAMES = ["y", "w"]
+BGNAMES = ["y", "w", "_q"]
 
 
 def rand_flds(rng, mode):
     """the class's fields: 1-3 fields sharing the one converter object, 0-2 fields with their own converter"""
     n_sh = rng.choice([1, 1, 2, 2, 3]) if mode != "standalone" else 1
     names = rng.sample(FNAMES, n_sh)
-    flds = [{"name": n, "shared": True} for n in names]
-    if mode in ("init", "initDefault"):
-        for n in rng.sample(BGNAMES, rng.choice([0, 0, 1, 1, 2])):
-            flds.insert(rng.randrange(len(flds) + 1), {"name": n, "shared": False})
+    flds = [{"name": n, "kind": "shared"} for n in names]
+    if mode != "standalone":
+        # fields with a converter of their own, with a validator only, with nothing -- anywhere among them
+        for n in rng.sample(BGNAMES, rng.choice([0, 0, 1, 1, 2, 3])):
+            flds.insert(rng.randrange(len(flds) + 1), {"name": n, "kind": rng.choice(["own", "validator", "plain"])})
     return flds
 INPUT_POOL = ["none", {"v": {"s": "t0"}}, {"v": {"s": "t1"}}, {"v": {"s": "0"}}, {"v": {"s": "''"}},
               {"v": {"s": "[]"}}, {"v": {"s": "False"}}]
@@ -439,15 +480,12 @@ def rand_tree(rng, depth, p_fault=0.08):
 
 def rand_cfg(rng, mode):
     api = rng.choice(["attr.s", "attr.s", "define", "mutable", "make_class"])
-    if mode in ("assign", "setter") and api == "make_class":
-        api = "attr.s"
     return {
         "api": api,
         "slots": rng.choice([None, True, False]),
         "frozen": rng.random() < 0.25,
         "kw_only": rng.random() < 0.2,
-        "hook": rng.choice(["cls", "field"]),
-        "hook_pipe": rng.random() < 0.4,
+        "hookcfg": rng.choice(list(HOOKCFGS)),
         "list_form": rng.choice([None, None, "list", "tuple"]),
         "dflt_style": rng.choice(["value", "factory"]),
         "dinf": rng.choice(["kw", "Factory", "Factory_pos"]),
@@ -467,15 +505,19 @@ def rand_inputs(rng):
     return ins
 
 
+def with_cfg(case, cfg):
+    """the case under another harness configuration (`converts` is what the hook configuration implies)"""
+    return dict(case, cfg=cfg, converts=converts(cfg.get("hookcfg", "cls_convert")))
+
+
 def mk_case(rng, tree, mode=None, inputs=None, flds=None):
     mode = mode or rng.choice(MODES)
-    return {
+    return with_cfg({
         "kind": "conv", "tree": tree, "mode": mode,
         "inputs": inputs if inputs is not None else rand_inputs(rng),
         "inst": rng.choice(["I0", "I1"]), "field": rng.choice(["F0", "F1"]),
         "flds": flds if flds is not None else rand_flds(rng, mode),
-        "cfg": rand_cfg(rng, mode),
-    }
+    }, rand_cfg(rng, mode))
 
 
 def leaves_small():
@@ -516,24 +558,42 @@ def small_trees(level):
 def gen_cases(tier, rng):
     std_inputs = ["none", {"v": {"s": "t0"}}, "none", {"v": {"s": "0"}}, {"v": {"s": "t0"}}]
     # structured block: small trees x every mode
-    several = [{"name": "x", "shared": True}, {"name": "y", "shared": False}, {"name": "z", "shared": True},
-               {"name": "_p", "shared": True}]
+    several = [{"name": "x", "kind": "shared"}, {"name": "y", "kind": "own"}, {"name": "z", "kind": "shared"},
+               {"name": "_p", "kind": "shared"}]
     for t in small_trees(2 if tier == "quick" else 3):
         for mode in MODES:
             c = mk_case(rng, t, mode, list(std_inputs))
             if mode == "initDefault":
                 for i in (False, True):
                     for d in ("value", "factory"):
-                        c2 = dict(c, cfg=dict(c["cfg"], init_false=i, dflt_style=d))
+                        c2 = with_cfg(c, dict(c["cfg"], init_false=i, dflt_style=d))
                         yield c2
             else:
                 yield c
             if mode != "standalone":
                 # one converter object on three fields of the class (and a field with its own converter between)
-                fl = several if mode in ("init", "initDefault") else [f for f in several if f["shared"]]
+                fl = several
                 c = mk_case(rng, t, mode, [{"v": {"s": "t0"}}, "none"], flds=fl)
                 c["cfg"]["share"] = "object"
                 yield c
+    # on assignment, multi-field classes: converter fields next to validator-only / plain / own-converter fields
+    # in every order, under every on_setattr configuration and front-end; the value is assigned to each field
+    S_, O_, V_, P_ = "shared", "own", "validator", "plain"
+    orders = [[V_, S_], [S_, V_], [P_, V_, S_], [V_, O_, S_], [O_, V_, S_], [V_, S_, S_], [P_, S_, V_, O_],
+              [V_, P_, O_], [S_], [V_, V_, S_, O_]]
+    atrees = [{"fn": {"name": "f1", "beh": "term"}}, {"conv": {"name": "f2", "beh": "term", "ts": True, "tf": True}},
+              {"pipe": {"cs": [{"fn": {"name": "f1", "beh": "term"}}, {"conv": {"name": "f2", "beh": "term", "ts": False, "tf": True}}]}},
+              {"optional": {"c": {"fn": {"name": "f1", "beh": "term"}}}}]
+    names = ["a", "b", "c", "d"]
+    for ti, t in enumerate(atrees if tier == "thorough" else atrees[:3]):
+        for oi, order in enumerate(orders):
+            for hk in HOOKCFGS:
+                for api in ("attr.s", "define", "make_class"):
+                    if tier == "quick" and (ti + oi + len(hk)) % 2 and api != "attr.s":
+                        continue           # quick: every (order, hook) pair on attr.s, half of the rest
+                    fl = [{"name": n, "kind": k} for n, k in zip(names, order)]
+                    c = mk_case(rng, t, "assign", [{"v": {"s": "t0"}}, "none"], flds=fl)
+                    yield with_cfg(c, dict(c["cfg"], hookcfg=hk, api=api, share="object"))
     # law-shaped trees: nested pipes vs flat pipes, optional / default_if_none around Converters at every level
     n = 9000 if tier == "quick" else 150000
     for _ in range(n):
@@ -608,8 +668,10 @@ def dist(case, obs):
         "conv.api": case.get("cfg", {}).get("api"),
         "conv.init_false": bool(case.get("cfg", {}).get("init_false")) if case["mode"] == "initDefault" else "-",
         "conv.repeated_input": len({json.dumps(i, sort_keys=True) for i in case["inputs"]}) < len(case["inputs"]),
-        "conv.n_sharing_fields": sum(1 for f in case["flds"] if f["shared"]),
-        "conv.n_other_fields": sum(1 for f in case["flds"] if not f["shared"]),
+        "conv.n_sharing_fields": sum(1 for f in case["flds"] if f["kind"] == "shared"),
+        "conv.other_fields": "+".join(sorted({f["kind"] for f in case["flds"] if f["kind"] != "shared"})) or "-",
+        "conv.first_hooked_field": next((f["kind"] for f in case["flds"] if f["kind"] != "plain"), "-"),
+        "conv.hookcfg": case.get("cfg", {}).get("hookcfg") if case["mode"] == "assign" else "-",
         "conv.exc_class": case.get("cfg", {}).get("exc") if any(r.startswith("!") for r in res) else "-",
     }
 
@@ -643,22 +705,22 @@ def shrink(case):
     fl = case["flds"]
     for i in range(len(fl)):
         rest = fl[:i] + fl[i + 1:]
-        if any(f["shared"] for f in rest):
+        if any(f["kind"] == "shared" for f in rest):
             yield dict(case, flds=rest)
-    base = {"api": "attr.s", "slots": None, "frozen": False, "kw_only": False, "hook": "cls", "hook_pipe": False,
+    base = {"api": "attr.s", "slots": None, "frozen": False, "kw_only": False, "hookcfg": "cls_convert",
             "list_form": None, "dflt_style": "value", "dinf": "kw", "din_pos": False, "exc": "UserError",
             "rebuild": False, "share": "object", "init_false": False}
     cfg = case.get("cfg", {})
     for k, v in base.items():
         if cfg.get(k) != v:
-            yield dict(case, cfg=dict(cfg, **{k: v}))
+            yield with_cfg(case, dict(cfg, **{k: v}))
     if len(fl) == 1 and fl[0]["name"] != "x":
-        yield dict(case, flds=[{"name": "x", "shared": True}])
+        yield dict(case, flds=[{"name": "x", "kind": "shared"}])
 
 
 def neighbours(case, rng):
     for mode in MODES:
-        c = dict(case, mode=mode, cfg=rand_cfg(rng, mode))
+        c = with_cfg(dict(case, mode=mode), rand_cfg(rng, mode))
         yield c
         yield dict(c, flds=rand_flds(rng, mode))
         yield dict(c, inputs=list(INPUT_POOL))
